@@ -450,12 +450,20 @@ pub fn builder_inputs() -> Vec<(String, RefParts)> {
 }
 
 pub fn run_build_case(prog: &Program, ty: &str, start: &RefParts, states: &mut BTreeSet<u64>, acc: &mut Acc) {
+    run_build_case_via(prog, ty, start, false, states, acc)
+}
+
+/// `via_new`: through `GenericPurl::new(type, name)` instead of the builder (only the name is set)
+pub fn run_build_case_via(prog: &Program, ty: &str, start: &RefParts, via_new: bool, states: &mut BTreeSet<u64>, acc: &mut Acc) {
     acc.evals += 1;
     acc.calls += 1;
-    let case = json!({"engine": "shape-build", "program": prog_json(prog), "ty": ty, "parts": {"ns": start.ns, "name": start.name, "version": start.version, "quals": start.quals, "subpath": start.subpath}});
+    let case = json!({"engine": "shape-build", "via_new": via_new, "program": prog_json(prog), "ty": ty, "parts": {"ns": start.ns, "name": start.name, "version": start.version, "quals": start.quals, "subpath": start.subpath}});
     PROGRAM.with(|p| *p.borrow_mut() = prog.clone());
     LOG.with(|l| l.borrow_mut().clear());
     let res = match guarded(|| {
+        if via_new {
+            return GenericPurl::new(Scripted { ty: ty.to_ascii_lowercase() }, start.name.as_str());
+        }
         let mut b = GenericPurlBuilder::new(Scripted { ty: ty.to_ascii_lowercase() }, start.name.as_str()).with_namespace(start.ns.as_str()).with_version(start.version.as_str()).with_subpath(start.subpath.as_str());
         for (k, v) in &start.quals {
             b = b.with_qualifier(k.as_str(), v.as_str()).expect("valid key");
@@ -507,7 +515,7 @@ pub fn replay(case: &Value) -> Option<Vec<Violation>> {
             let p = &case["parts"];
             let quals: BTreeMap<String, String> = p["quals"].as_object()?.iter().map(|(k, v)| (k.clone(), v.as_str().unwrap_or("").to_owned())).collect();
             let start = RefParts { ns: p["ns"].as_str()?.into(), name: p["name"].as_str()?.into(), version: p["version"].as_str()?.into(), quals, subpath: p["subpath"].as_str()?.into() };
-            run_build_case(&prog, case["ty"].as_str()?, &start, &mut st, &mut acc)
+            run_build_case_via(&prog, case["ty"].as_str()?, &start, case["via_new"].as_bool().unwrap_or(false), &mut st, &mut acc)
         },
         _ => return None,
     }
@@ -549,6 +557,11 @@ pub fn explore(tier: Tier) -> (Acc, Value, u64, u64) {
         }
         for (ty, start) in &binputs {
             run_build_case(prog, ty, start, &mut st, acc);
+        }
+        // the short cut GenericPurl::new(type, name) must behave like builder + build()
+        for name in ["n", "", "A/b"] {
+            let start = RefParts { name: name.into(), ..Default::default() };
+            run_build_case_via(prog, "t", &start, true, &mut st, acc);
         }
         if pi == 40 {
             acc.sample(|| json!({"program": prog_json(prog), "input": inputs[inputs.len() / 2]}));
